@@ -24,6 +24,9 @@ func C19_sessions() {
 	}
 	key := [4]byte{vU8("k0"), vU8("k1"), vU8("k2"), vU8("k3")}
 	vSessProblems = 0
+	// configuration shared by all sessions exists from here on and is only read by them
+	vNewSharedConfig()
+	vFreezeShared()
 	wantS := vServerSession(tok, payload, key)
 	wantC := vClientSession(payload)
 	vAssert(vSessProblems == 0, "sessions.every_step_as_when_running_alone")
@@ -45,13 +48,19 @@ func C19_sessions() {
 	if vSymbolic() {
 		return
 	}
-	// native: 16 goroutines x 20 rounds, mixed roles, other inputs in the other goroutines
+	// native: 16 goroutines x 20 rounds, mixed roles, other inputs in the other goroutines; the
+	// shared configuration is fresh, so that its first use is concurrent too
+	vNewSharedConfig()
+	vNoPoison = true
+	defer func() { vNoPoison = false }()
+	start := make(chan struct{})
 	var wg sync.WaitGroup
 	bad := make([]bool, 16)
 	for g := 0; g < 16; g++ {
 		wg.Add(1)
 		go func(g int) {
 			defer wg.Done()
+			<-start
 			other := []byte{byte('a' + g), byte('z' - g)}
 			op := append([]byte{}, payload...)
 			op[0] ^= byte(g)
@@ -68,6 +77,7 @@ func C19_sessions() {
 			}
 		}(g)
 	}
+	close(start)
 	wg.Wait()
 	ok := true
 	for _, b := range bad {
